@@ -154,9 +154,25 @@ def tamper_classes(n, d, z, r, s, Qown, Qother):
     return out
 
 
+def der_job(job, g):
+    """Key.verify(hash, blob) for DER blobs prepared by spec/MC_ECDSADer.tla; the Key class is bound to generator g
+    the way pycoin's networks do it (Key.make_subclass)"""
+    from pycoin.key.Key import Key
+    K = Key.make_subclass("VF", None, g)
+    out = []
+    for cse in job["cases"]:
+        key = K(public_pair=(int(cse["Q"][0], 16), int(cse["Q"][1], 16)))
+        h = int(cse["z"], 16).to_bytes(32, "big")
+        out.append([call(lambda: key.verify(h, bytes.fromhex(b))) for b in cse["blobs"]])
+    return out
+
+
 def main():
     job = json.load(sys.stdin)
     g = ecdrv.production_generator(job["curve"])
+    if job.get("what") == "der":
+        json.dump({"backend": ecdrv.backend_of(g), "out": der_job(job, g)}, sys.stdout)
+        return
     from pycoin.ecdsa.rfc6979 import deterministic_generate_k
     n = g.order()
     res = {"backend": ecdrv.backend_of(g), "out": []}
